@@ -21,7 +21,8 @@ CHECK = {'rule': 'Holders of the shared mutex service (goroutines calling Shared
                  'window',
                  "argument layer: a resource named under --wlock was asked for write access whatever else the lists contain; every session uses the "
                  "default lock namespace; list entries match pip:run's name pattern (malformed lists are not generated)"],
- 'essential_labels': {'all': ['conflict-contended',
+ 'essential_labels': {'all': ['pip-waitlock:waits-for-a-task-it-conflicts-with',
+                              'conflict-contended',
                               'deadlock-prone-pair',
                               'readers-shared-overlap',
                               'disjoint-overlap',
@@ -49,7 +50,8 @@ CHECK = {'rule': 'Holders of the shared mutex service (goroutines calling Shared
                      {'test': '^TestPropPip$', 'checks': 1000, 'shards': 1, 'timeout': 240, 'shrinktime': '5s', 'seed_offset': 200},
                      {'test': '^TestPropCliGated$', 'checks': 800, 'shards': 1, 'timeout': 240, 'shrinktime': '5s', 'seed_offset': 400},
                      {'test': '^TestPropCli$', 'checks': 600, 'shards': 1, 'timeout': 240, 'shrinktime': '5s', 'seed_offset': 500},
-                     {'test': '^TestPropCliMap$', 'checks': 3000, 'shards': 1, 'timeout': 240, 'shrinktime': '5s', 'seed_offset': 600}],
+                     {'test': '^TestPropCliMap$', 'checks': 3000, 'shards': 1, 'timeout': 240, 'shrinktime': '5s', 'seed_offset': 600},
+                     {'test': '^TestPropWaitLock$', 'checks': 500, 'shards': 2, 'timeout': 240, 'shrinktime': '5s', 'seed_offset': 700}],
            'thorough': [{'test': '^TestEnum$', 'timeout': 900, 'shrinktime': '5s'},
                         {'test': '^TestPropGated$', 'checks': 40000, 'shards': 3, 'timeout': 900, 'shrinktime': '5s', 'seed_offset': 100},
                         {'test': '^TestProp$', 'checks': 20000, 'shards': 8, 'timeout': 900, 'shrinktime': '5s'},
@@ -57,14 +59,15 @@ CHECK = {'rule': 'Holders of the shared mutex service (goroutines calling Shared
                         {'test': '^TestPropPip$', 'checks': 10000, 'shards': 2, 'timeout': 900, 'shrinktime': '5s', 'seed_offset': 200},
                         {'test': '^TestPropCliGated$', 'checks': 10000, 'shards': 2, 'timeout': 900, 'shrinktime': '5s', 'seed_offset': 400},
                         {'test': '^TestPropCli$', 'checks': 8000, 'shards': 2, 'timeout': 900, 'shrinktime': '5s', 'seed_offset': 500},
-                        {'test': '^TestPropCliMap$', 'checks': 30000, 'shards': 1, 'timeout': 900, 'shrinktime': '5s', 'seed_offset': 600}]}}
+                        {'test': '^TestPropCliMap$', 'checks': 30000, 'shards': 1, 'timeout': 900, 'shrinktime': '5s', 'seed_offset': 600},
+                        {'test': '^TestPropWaitLock$', 'checks': 8000, 'shards': 4, 'timeout': 900, 'shrinktime': '5s', 'seed_offset': 700}]}}
 
 TEXT = {'technique': 'property-based testing with generated schedules (rapid): holder sets (lock maps, start offsets, hold times, GOMAXPROCS) run as '
               'goroutines against the real SharedMutex and as pipeline tasks through pipservices.Runner.Run; interval-overlap invariant over '
               'sequence numbers taken inside the critical sections, channel-gated scenarios for non-serialisation, completion watchdog for deadlock; '
               'exhaustive enumeration of all two-holder scenarios over 3 resources; argument layer: the same scenarios with every holder a concurrent '
               'terminal session running pip:run with generated --rlock/--wlock lists, plus a recording PipRunner stand-in comparing the built '
-              'lock map with the model',
+              'lock map with the model; pipeline tasks that carry a lock map AND a wait list (a task waiting for a task it shares a resource with)',
  'level_text': 'Exploration with an exhaustive core: all 1458 two-holder map pairs over 3 resources are enumerated in gated scenarios; larger holder '
                'sets, interleavings inside Lock and GOMAXPROCS are sampled (~18 k cases quick, ~330 k thorough).',
  'level_note': 'Exclusion is judged from sequence numbers taken strictly inside the critical sections (sound); non-serialisation and '
